@@ -2,6 +2,7 @@ package checks
 
 import (
 	"bytes"
+	"encoding/binary"
 	"encoding/json"
 	"fmt"
 	"io"
@@ -29,7 +30,7 @@ func registerC09() {
 		ID:    "C09",
 		Level: "exploration",
 		Rule: "harness and library are built with -race; each run starts G in {2,4,16,64} goroutines, every goroutine owning private copies of its inputs and private Files and " +
-			"executing a PRNG sequence of Decode (with and without options and a formatting logger, on intact and on corrupted private copies) / DecodeChained / CheckIntegrity / DecodeHeader / DecodeHeaderAndFileID / Header.MarshalJSON / Encode of decoded Files / NewHeader+NewFile+constructors+Encode+Decode of API-built Files / Encode of Files larger than 4 MiB (all goroutines at once, in runs of a second build without race detector) / 96 and 200 goroutines that are all inside one reading entry point at the same moment (readers that wait, inside the first Read, for the others; same build, and one race-detector run in eight with 80) / pairs of calls of which one is parked inside a Read of its own reader - first byte, header, middle, CRC bytes - until the other, independent one has returned (it must return; it gets two minutes) / String methods through readers and " +
+			"executing a PRNG sequence of Decode (with and without options and a formatting logger, on intact and on corrupted private copies) / DecodeChained / CheckIntegrity / DecodeHeader / DecodeHeaderAndFileID / Header.MarshalJSON / Encode of decoded Files / NewHeader+NewFile+constructors+Encode+Decode of API-built Files / Encode of Files larger than 4 MiB (all goroutines at once, in runs of a second build without race detector) / 96 and 200 goroutines that are all inside one reading entry point at the same moment (readers that wait, inside the first Read, for the others; same build, and one race-detector run in eight with 80) / pairs of calls of which one is parked inside a Read of its own reader - first byte, header, middle, CRC bytes - until the other, independent one has returned (it must return; it gets two minutes), likewise an Encode parked inside the 1st, 2nd or 3rd Write of its own destination while an independent Encode or Decode runs / String methods through readers and " +
 			"writers that yield and deliver short reads, so that calls interleave inside the library; pool A = inputs without accumulated component sources, pool B = with. " +
 			"Oracle 1: every race-detector report (GORACE halt_on_error=0, log parsed) is classified by the innermost repository frames of its two stacks; oracle 2: every call's " +
 			"result digest equals the digest of the same call run alone (taken before the goroutines start, or - in every second run, a 'cold start' - after they have finished, so that the process's first calls into the library are concurrent). Non-trivial: a call that overlapped in time (logical clock) with a call of " +
@@ -173,6 +174,23 @@ func (w *yieldWriter) Write(p []byte) (int, error) {
 }
 
 // c09Call runs call kind k on private data.
+// gatedWriter calls gate once, inside the nth Write, before the bytes are passed on.
+type gatedWriter struct {
+	w    io.Writer
+	nth  int
+	n    int
+	gate func()
+}
+
+func (g *gatedWriter) Write(p []byte) (int, error) {
+	g.n++
+	if g.n == g.nth && g.gate != nil {
+		g.gate()
+		g.gate = nil
+	}
+	return g.w.Write(p)
+}
+
 // gatedReader calls gate once, inside the first Read: the call into the library is then in
 // flight, holding whatever it acquired on entry, while gate waits for the other goroutines.
 type gatedReader struct {
@@ -438,8 +456,82 @@ func C09Sub(args []string) int {
 				}
 			}
 		}
-		res.Calls += int64(2 * pairs)
-		res.DependentPairs = int64(pairs)
+		// round 13: the same on the output side. Encode A is parked inside a Write of its own
+		// destination (the 1st, 2nd or 3rd Write it makes) until an independent call B - Encode
+		// of another File into another destination, or a Decode - has returned.
+		wpairs := 0
+		for _, kb := range []int{0, 1, 2} {
+			for _, nth := range []int{1, 2, 3} {
+				for _, order := range []binary.ByteOrder{binary.LittleEndian, binary.BigEndian} {
+					if len(res.Mismatch) > 0 {
+						break
+					}
+					inA := append([]byte{}, pool[(kb+nth)%len(pool)]...)
+					inB := append([]byte{}, pool[(kb+2*nth+1)%len(pool)]...)
+					fa, ea := fit.Decode(bytes.NewReader(inA))
+					fb, eb := fit.Decode(bytes.NewReader(inB))
+					if ea != nil || eb != nil || fa == nil || fb == nil {
+						continue
+					}
+					var want bytes.Buffer
+					// (the same File value is encoded alone first: a second Decode of inA would differ in
+					// record.distance, known finding F5)
+					if fit.Encode(&want, fa, order) != nil {
+						continue
+					}
+					parked, doneB := make(chan struct{}), make(chan struct{})
+					stalled := false
+					var gotA bytes.Buffer
+					var errA error
+					var wg sync.WaitGroup
+					wg.Add(2)
+					go func() {
+						defer wg.Done()
+						<-parked
+						switch kb {
+						case 0:
+							var sink bytes.Buffer
+							fit.Encode(&sink, fb, binary.LittleEndian)
+						case 1:
+							var sink bytes.Buffer
+							fit.Encode(&sink, fb, binary.BigEndian)
+						default:
+							fit.Decode(bytes.NewReader(inB))
+						}
+						close(doneB)
+					}()
+					go func() {
+						defer wg.Done()
+						gw := &gatedWriter{w: &gotA, nth: nth, gate: func() {
+							close(parked)
+							select {
+							case <-doneB:
+							case <-time.After(2 * time.Minute):
+								stalled = true
+							}
+						}}
+						errA = fit.Encode(gw, fa, order)
+						select {
+						case <-parked:
+						default:
+							close(parked) // Encode made fewer than nth Writes
+						}
+					}()
+					wg.Wait()
+					wpairs++
+					if stalled {
+						res.Mismatch = append(res.Mismatch, fmt.Sprintf("%s did not return within two minutes while an Encode of another File was waiting inside Write number %d of its own destination: one call's wait for its caller's I/O holds up an independent call", []string{"Encode (little endian)", "Encode (big endian)", "Decode"}[kb], nth))
+						break
+					}
+					if errA != nil || !bytes.Equal(gotA.Bytes(), want.Bytes()) {
+						res.Mismatch = append(res.Mismatch, fmt.Sprintf("Encode that waited inside Write number %d of its destination while another call ran wrote %d bytes (error %v); alone it writes %d bytes", nth, gotA.Len(), errA, want.Len()))
+						break
+					}
+				}
+			}
+		}
+		res.Calls += int64(2 * (pairs + wpairs))
+		res.DependentPairs = int64(pairs + wpairs)
 	}
 	var clock, goFlag int64
 	type span struct {
